@@ -181,6 +181,8 @@ def main(argv=None):
             return 1
         return 0
 
+    shutil.rmtree(os.path.join(env.WORK, "scratch_out", "replays", prop) if os.path.realpath(env.REPO) != os.path.realpath("/repo")
+                  else os.path.join(env.VERIF, "replays", prop), ignore_errors=True)
     shard_params = mod.shards(tier, seed)
     timeout_s = getattr(mod, "WATCHDOG", {}).get(tier, 600 if tier == "quick" else 3600)
     results, problems, work = run_shards(prop, tier, seed, shard_params, timeout_s, jobs)
@@ -230,7 +232,10 @@ def main(argv=None):
     lines = []
     known_hit = []
     unlisted = []
-    rdir = os.path.join(env.VERIF, "replays", prop)
+    # runs against a scratch copy of the repository (QV_REPO=...) must not touch the committed-tree artefacts
+    scratch = os.path.realpath(env.REPO) != os.path.realpath("/repo")
+    out_root = os.path.join(env.WORK, "scratch_out") if scratch else env.VERIF
+    rdir = os.path.join(out_root, "replays", prop)
     for key in sorted(m["violations"]):
         v = m["violations"][key]
         kf = classify(prop, key, known)
@@ -290,11 +295,12 @@ def main(argv=None):
         ],
         "wall_s": round(wall, 2), "violations": len(unlisted),
     }
-    os.makedirs(os.path.join(env.VERIF, "evidence"), exist_ok=True)
-    ep = os.path.join(env.VERIF, "evidence", f"{prop}.json")
+    os.makedirs(os.path.join(out_root, "evidence"), exist_ok=True)
+    ep = os.path.join(out_root, "evidence", f"{prop}.json")
     json.dump(evid, open(ep + ".tmp", "w"), indent=1, default=str)
     os.replace(ep + ".tmp", ep)
-    shutil.rmtree(work, ignore_errors=True)
+    if not os.environ.get("QV_KEEP_WORK"):
+        shutil.rmtree(work, ignore_errors=True)
 
     for ln in lines:
         print(ln)
